@@ -127,6 +127,8 @@ class WMTSServer(Server):
         query = InfoQuery(bbox, tile_layer.grid.tile_size, tile_layer.grid.srs, request.pos,
                           request.infoformat, feature_count=feature_count)
         self.check_request_dimensions(tile_layer, request)
+        # same check as GetTile: refuse dimension values that are not offered
+        tile_layer.checked_dimensions(request)
         coverage = self.authorize_tile_layer(tile_layer, request, featureinfo=True)
 
         if not tile_layer.info_sources:
